@@ -33,6 +33,13 @@ def render_hex(data, rnd, noise=True):
 def render_swtpm(messages, rnd):
     """documented layout: free text, then Ctrl / SWTPM_IO sections of upper-case hex lines"""
     out = b"Starting vTPM manufacturing as tss:tss @ Thu 04 Jul 2024\nuccessfully created R A 2048 EK with handle 0x81010001.\n"
+    # more free text before the first section: lines that swtpm prints at higher log levels and words that share a
+    # prefix with the payload marker without being it (all of it is free text: it carries no bytes)
+    for _ in range(rnd.choice([0, 0, 1, 2, 3])):
+        out += rnd.choice([b"SWTPM_NVRAM_Init: directory /var/lib/swtpm\n", b"SWTPM_NVRAM_LoadData: From file tpm2-00.permall\n",
+                           b"Data client connected\n", b" SWTPM_NVRAM_GetFilenameForName: For name permall\n 80 01 \n",
+                           b"swtpm_io: 3 bytes\n", b" SWTPM_I\n", b"SWTPM\n", b" SW SWT SWTP SWTPM_ x\n", b"TPM_IO_Hash_Start\n",
+                           b"main: Initializing TPM 2 at Thu Jul  4\n", b"Ctrl Cmd? no section yet\n", b"\n"])
     def hexlines(b):
         lines = b""
         for i in range(0, len(b), 16):
